@@ -316,6 +316,8 @@ type runResult struct {
 	gorAfter  int
 	in        *Interner
 	reqOf     map[any]int
+	resetAt   time.Time
+	startT    time.Duration // just before proc.Start, on the event log's clock
 }
 
 func comboKey(keys []string, meta map[string][]string) string {
@@ -341,6 +343,7 @@ func execPlan(p *runPlan) *runResult {
 	res := &runResult{plan: p, in: NewInterner(), reqOf: map[any]int{}}
 	var seq int64
 	cbp.VerifReset()
+	res.resetAt = time.Now()
 	var regMu sync.Mutex
 	cbp.VerifDataID = func(d any) string {
 		regMu.Lock()
@@ -429,6 +432,7 @@ func execPlan(p *runPlan) *runResult {
 		}
 	}
 	_ = processor.Settings{}
+	res.startT = time.Since(res.resetAt)
 	if err := proc.Start(context.Background(), componenttest.NewNopHost()); err != nil {
 		res.hang = err.Error()
 		return res
@@ -1207,6 +1211,115 @@ func ltsCases(res *runResult, sb *strings.Builder, n *int) {
 	*n++
 }
 
+// timeCases: per shard of a run without a concurrency limit, the timed event trace (microseconds
+// on the event log's clock) for Batch/Time.v, and per (request, export) the accept and send times.
+// Forests are replaced by a single container holding the same number of items: the timed model
+// only depends on counts.
+func timeCases(res *runResult, tb, pb *strings.Builder, nt, np *int) {
+	p := res.plan
+	if p.Cfg.MaxConc != 0 || res.hang != "" {
+		return
+	}
+	us := func(d time.Duration) int64 { return int64(d / time.Microsecond) }
+	timeout := int64(p.Cfg.TimeoutMs) * 1000
+	delta := timeout*5 + 2000000
+	if p.Trickle {
+		delta = timeout*5 + 200000
+	}
+	timer := p.Cfg.TimeoutMs != 0 && p.Cfg.SendSize != 0
+	byShard := map[int][]cbp.VerifEvent{}
+	var order []int
+	for _, e := range res.log {
+		switch e.Kind {
+		case "recv", "timer", "shutdown":
+			if _, ok := byShard[e.Shard]; !ok {
+				order = append(order, e.Shard)
+			}
+			byShard[e.Shard] = append(byShard[e.Shard], e)
+		}
+	}
+	sort.Ints(order)
+	for _, sh := range order {
+		evs := byShard[sh]
+		t0 := us(res.startT)
+		if len(p.Cfg.MetaKeys) > 0 {
+			// the shard is created by the first Consume call for its combination, just before its first event
+			t0 = us(evs[0].T)
+		}
+		var es []string
+		for _, e := range evs {
+			switch e.Kind {
+			case "recv":
+				if e.Num == 0 {
+					es = append(es, fmt.Sprintf("(%d, TR0)", us(e.T)))
+				} else {
+					es = append(es, fmt.Sprintf("(%d, TR %d)", us(e.T), e.Num))
+				}
+			case "timer":
+				es = append(es, fmt.Sprintf("(%d, @Timer 1)", us(e.T)))
+			}
+		}
+		if *nt > 0 {
+			tb.WriteString(";\n")
+		}
+		fmt.Fprintf(tb, " ({| send_size := %d; max_size := %d; timer := %v |}, %d, %d, %d, [%s])",
+			p.Cfg.SendSize, p.Cfg.MaxSize, timer, timeout, delta, t0, strings.Join(es, "; "))
+		*nt++
+	}
+	if p.Cfg.Shutdown != "after" {
+		return
+	}
+	recvT := map[int]time.Duration{}
+	for _, e := range res.log {
+		if e.Kind == "recv" {
+			var id int
+			if _, err := fmt.Sscan(e.DataID, &id); err == nil {
+				recvT[id] = e.T
+			}
+		}
+	}
+	sk := res.sink
+	sk.mu.Lock()
+	defer sk.mu.Unlock()
+	owner := map[uint64]int{}
+	for _, rp := range p.Reqs {
+		for _, it := range rp.flat {
+			owner[it.ID] = rp.ID
+		}
+	}
+	var pairs []string
+	for _, e := range res.log {
+		if e.Kind != "send" {
+			continue
+		}
+		for _, ex := range sk.exports {
+			if ex.Data != e.Req {
+				continue
+			}
+			seen := map[int]bool{}
+			for _, it := range ex.Flat {
+				id, ok0 := owner[it.ID]
+				if ta, ok := recvT[id]; ok0 && ok && !seen[id] {
+					seen[id] = true
+					pairs = append(pairs, fmt.Sprintf("(%d, %d)", us(ta), us(e.T)))
+				}
+			}
+		}
+	}
+	if len(pairs) == 0 {
+		return
+	}
+	if *np > 0 {
+		pb.WriteString(";\n")
+	}
+	eff := timeout
+	if !timer {
+		eff = 0
+	}
+	fmt.Fprintf(pb, " (%d, %d, [%s])", eff, delta, strings.Join(pairs, "; "))
+	*np++
+}
+
 func runSys(r *Rng, n int, focus, replay string, out *Output) {
 	var sb strings.Builder
 	sb.WriteString(`Definition case_t := {d : nat & (cfg * list (ev d) * list (send d) * list (bool * N))%type}.
@@ -1229,6 +1342,11 @@ Definition sys_cases : list case_t := [
 	var lb strings.Builder
 	lb.WriteString("Definition lts_cases : list (N * list lev) := [\n")
 	nlts := 0
+	var tb, pb strings.Builder
+	tb.WriteString("Definition TR (n : N) : ev 1 := @Recv 1 ([((1, 0), [((2, 0), List.map N.of_nat (List.seq 0 (N.to_nat n)))])] : list (T 2)) 0 0.\nDefinition TR0 : ev 1 := @Recv 1 [] 0 0.\n")
+	tb.WriteString("Definition time_cases : list (cfg * N * N * N * list (N * ev 1)) := [\n")
+	pb.WriteString("Definition pair_cases : list (N * N * list (N * N)) := [\n")
+	ntime, npair := 0, 0
 	stats := map[string]int{}
 	for i := 0; i < n; i++ {
 		forceTrickle = focus == "C09" && i%20 == 7
@@ -1242,6 +1360,9 @@ Definition sys_cases : list case_t := [
 			waitCases(res, &wb, &nwait)
 			tenantCases(res, &kb, &ab, &nkey, &nadm)
 			ltsCases(res, &lb, &nlts)
+			if focus == "C09" {
+				timeCases(res, &tb, &pb, &ntime, &npair)
+			}
 		}
 		kind := fmt.Sprintf("signal=%d early=%v meta=%v shutdown=%s trickle=%v", p.Cfg.Signal, p.Cfg.Early, len(p.Cfg.MetaKeys) > 0, p.Cfg.Shutdown, p.Trickle)
 		obs := map[string]any{"run": i, "cfg": p.Cfg, "requests": len(p.Reqs), "exports": len(res.sink.exports), "shards": shards,
@@ -1389,7 +1510,25 @@ Print systuple_propfail.
 	case "C05":
 		out.Lists = append(out.Lists, "syscontent_mismatch", "syscontent_propfail")
 	case "C09":
-		out.Lists = append(out.Lists, "syssize_mismatch", "syssize_propfail")
+		out.Lists = append(out.Lists, "syssize_mismatch", "syssize_propfail", "time_mismatch", "time_propfail")
+		tb.WriteString("\n].\n")
+		pb.WriteString("\n].\n")
+		out.Coq.WriteString(tb.String())
+		out.Coq.WriteString(pb.String())
+		out.Coq.WriteString(`(* the real timer discipline is the model's: every logged (time, event) trace of a shard is accepted by
+   Batch/Time.v (timer fires no earlier than 5 ms before the model's expiry, no event later than expiry + delta) *)
+Definition time_check (c : cfg * N * N * N * list (N * ev 1)) : bool :=
+  let '(cf, timeout, delta, t0, tr) := c in taccepts 1 timeout delta cf 5000 (tinit 1 timeout t0) tr.
+(* the property on the real run: every item was sent no later than timeout (+ lateness) after it was accepted *)
+Definition pair_prop (c : N * N * list (N * N)) : bool :=
+  let '(timeout, delta, ps) := c in forallb (fun p : N * N => snd p <=? fst p + timeout + delta) ps.
+Definition time_mismatch := Eval vm_compute in failing time_check time_cases.
+Definition time_propfail := Eval vm_compute in failing pair_prop pair_cases.
+Print time_mismatch.
+Print time_propfail.
+`)
+		stats["time_cases"] = ntime
+		stats["pair_cases"] = npair
 	case "C06":
 		out.Lists = append(out.Lists, "systuple_mismatch", "systuple_propfail", "wait_mismatch")
 	case "C10":
